@@ -130,4 +130,34 @@ mod verif_kani {
         c47_coercion_d128_d128: 2, 2; c47_coercion_d128_d256: 2, 3;
         c47_coercion_d256_d256: 3, 3;
     }
+
+    // ------------------------------------------------------------------------------------------------
+    // property C07: EmitTo::take_needed (the call every GroupsAccumulator makes to emit All / the First(n) groups)
+    // ------------------------------------------------------------------------------------------------
+    #[kani::proof]
+    #[kani::unwind(8)]
+    fn c07_emit_to_take_needed_bounded() {
+        use crate::groups_accumulator::EmitTo;
+        let len: usize = kani::any();
+        kani::assume(len <= 5);
+        let src: [u8; 5] = kani::any();
+        let mut v: Vec<u8> = Vec::with_capacity(8);
+        let mut i = 0;
+        while i < len { v.push(src[i]); i += 1; }
+        let all: bool = kani::any();
+        let n: usize = kani::any();
+        kani::assume(n <= len);
+        let emit = if all { EmitTo::All } else { EmitTo::First(n) };
+        let want = if all { len } else { n };
+        let taken = emit.take_needed(&mut v);
+        assert!(taken.len() == want && v.len() == len - want, "C07.take_needed.lengths");
+        let mut k = 0;
+        while k < len {
+            if k < want { assert!(taken[k] == src[k], "C07.take_needed.emits_the_first_groups_in_order"); }
+            else { assert!(v[k - want] == src[k], "C07.take_needed.keeps_the_remaining_groups_in_order"); }
+            k += 1;
+        }
+        kani::cover!(!all && n >= 1 && n < len);
+        kani::cover!(all && len >= 2);
+    }
 }
